@@ -20,7 +20,9 @@ func childrenAsInfo(ss []asn1struct.Raw) []Info {
 	for _, s := range ss {
 		info := Info{Description: s.TypeString()}
 		info.Children = childrenAsInfo(s.Children)
-		if len(info.Children) == 0 {
+		// only primitive elements carry a value; a constructed element, even an
+		// empty one, is shown by its type alone
+		if !s.IsCompound {
 			info.Description += ": " + s.Value()
 		}
 		infos = append(infos, info)
